@@ -41,7 +41,7 @@ out=${OUT:-seeded/MATRIX.md}
 for d in $(ls seeded | grep -v MATRIX | grep "${ONLY:-.}"); do
   [ -f seeded/$d/patch.diff ] || continue
   git -C /repo apply /verif/seeded/$d/patch.diff || { echo "| $d | - | patch does not apply | | |" >> $out; continue; }
-  ids="${CHECKS[$d]}"; [ -z "$ids" ] && ids=$(echo $d | sed -n 's/^R2-\(C[0-9][0-9]\).*/\1/p')
+  ids="${CHECKS[$d]}"; [ -z "$ids" ] && ids=$(echo $d | sed -n 's/^R[0-9]-\(C[0-9][0-9]\).*/\1/p')
   for id in $ids; do
     o=$(./check $id quick 2>&1); code=$?
     v=$(echo "$o" | tail -1 | sed -n 's/.*violations=\([0-9]*\).*/\1/p')
